@@ -6,7 +6,7 @@ EXTENDS CsrBankContract, Json, IOUtils
 G == JsonDeserialize(IOEnv.GRAPH)
 NDuts == Len(G.duts)
 VARIABLES d, s
-vars == <<d, s, first, exp, stg, rd, bsel, owe, obs>>
+vars == <<d, s, exp, stg, rd, bsel, owe, obs>>
 K == [i \in 1..NDuts |-> Ext(G.duts[i].cfg)]     \* evaluated once (constant)
 C == K[d]
 
